@@ -107,7 +107,24 @@ func (g *gen) subject(r *hx.Rng) map[string]interface{} {
 		s["a8"] = []interface{}{g.object(r, 1, false), g.object(r, 1, true)}
 	}
 
+	// arrays whose elements are node references: objects holding nothing but an id (they compact to the plain id),
+	// alone, in pairs, and mixed with strings and with ordinary objects
+	switch r.Intn(5) {
+	case 0:
+		s["a7"] = []interface{}{g.bareID(), g.bareID()}
+	case 1:
+		s["a7"] = []interface{}{g.bareID(), g.fresh("s"), g.object(r, 0, false)}
+	case 2:
+		s["a7"] = []interface{}{g.bareID()}
+	case 3:
+		s["ref"] = []interface{}{g.bareID(), "urn:verif:" + g.fresh("ref"), g.bareID()}
+	}
+
 	return s
+}
+
+func (g *gen) bareID() map[string]interface{} {
+	return map[string]interface{}{"id": "urn:verif:" + g.fresh("node")}
 }
 
 func (g *gen) credential(r *hx.Rng, extraCtx string) map[string]interface{} {
@@ -133,10 +150,34 @@ func (g *gen) credential(r *hx.Rng, extraCtx string) map[string]interface{} {
 		vc["expirationDate"] = fmt.Sprintf("20%02d-01-0%dT00:00:00Z", 30+r.Intn(10), 1+r.Intn(9))
 	}
 
-	if r.Intn(4) == 0 {
+	switch r.Intn(8) {
+	case 0, 1:
 		vc["credentialSubject"] = []interface{}{g.subject(r), g.subject(r)}
-	} else {
+	case 2:
+		// several subjects named by their ids only
+		vc["credentialSubject"] = []interface{}{
+			map[string]interface{}{"id": "did:example:" + g.fresh("subj")},
+			map[string]interface{}{"id": "did:example:" + g.fresh("subj")},
+			map[string]interface{}{"id": "did:example:" + g.fresh("subj")},
+		}
+	case 3:
+		vc["credentialSubject"] = []interface{}{map[string]interface{}{"id": "did:example:" + g.fresh("subj")}, g.subject(r)}
+	default:
 		vc["credentialSubject"] = g.subject(r)
+	}
+
+	if r.Intn(4) == 0 {
+		vc["evidence"] = []interface{}{
+			map[string]interface{}{"id": "urn:verif:" + g.fresh("ev"), "type": []interface{}{"Thing"}, "a1": g.fresh("v")},
+			map[string]interface{}{"id": "urn:verif:" + g.fresh("ev"), "type": []interface{}{"Other"}},
+		}
+	}
+
+	if r.Intn(4) == 0 {
+		vc["termsOfUse"] = []interface{}{
+			map[string]interface{}{"id": "urn:verif:" + g.fresh("tou"), "type": "Thing"},
+			map[string]interface{}{"type": "Other", "a2": g.fresh("v")},
+		}
 	}
 
 	return vc
@@ -201,6 +242,18 @@ func (g *gen) signedDoc(r *hx.Rng, kind string, sd *suiteDef, idx int) (map[stri
 	}
 
 	if sd.di {
+		// Data Integrity documents cycle through the presence patterns of domain and challenge
+		switch (idx / len(g.w.suites)) % 4 {
+		case 0:
+			so.domain, so.challenge = "", g.fresh("challenge")
+		case 1:
+			so.domain, so.challenge = g.fresh("domain"), g.fresh("challenge")
+		case 2:
+			so.domain, so.challenge = g.fresh("domain"), ""
+		default:
+			so.domain, so.challenge = "", ""
+		}
+
 		key := g.w.di.keys[r.Intn(2)]
 		if so.purpose == "authentication" && len(key.purposes) < 2 {
 			key = g.w.di.keys[0]
@@ -251,6 +304,7 @@ type edit struct {
 	class  string // identity | must-reject | undef | unverify | model
 	apply  func(d map[string]interface{}) bool
 	badKey string
+	keep   bool // never sampled away by the per-node cap
 }
 
 func changed(v interface{}) interface{} {
@@ -286,7 +340,11 @@ func (g *gen) edits(r *hx.Rng, kind string, sd *suiteDef, signed map[string]inte
 		for _, e := range es {
 			switch editKind(e.name) {
 			case "change", "delete", "dup", "undef", "undefobj", "addclaim", "dupobj", "delobj", "reorder", "structwrap":
-				perNode = append(perNode, e)
+				if e.keep {
+					fixed = append(fixed, e)
+				} else {
+					perNode = append(perNode, e)
+				}
 			default:
 				fixed = append(fixed, e)
 			}
@@ -371,6 +429,11 @@ func (g *gen) edits(r *hx.Rng, kind string, sd *suiteDef, signed map[string]inte
 				return true
 			})
 
+			// every element of every array keeps its add-undefined edit
+			if !inProof && n.p.inArray() {
+				es[len(es)-1].keep = true
+			}
+
 			if !inProof && r.Intn(3) == 0 {
 				add("undefobj "+n.p.String(), class, func(d map[string]interface{}) bool {
 					o, _ := get(d, n.p).(map[string]interface{})
@@ -421,6 +484,19 @@ func (g *gen) edits(r *hx.Rng, kind string, sd *suiteDef, signed map[string]inte
 
 					return true
 				})
+			}
+
+			if len(a) >= 2 {
+				if o0, isObj := a[0].(map[string]interface{}); isObj && o0 != nil {
+					add("undefnested "+n.p.String(), "undef", func(d map[string]interface{}) bool {
+						x, _ := get(d, n.p).([]interface{})
+						e0, _ := x[0].(map[string]interface{})
+						e0["zz_undef"] = "u"
+						set(d, n.p, []interface{}{x, []interface{}{}})
+
+						return true
+					})
+				}
 			}
 
 			add("structwrap "+n.p.String(), "model", func(d map[string]interface{}) bool {
